@@ -101,7 +101,13 @@ def combine_simulation_results(
         type_code = result_list1[0].type_code
         for unpack in combined_params.get_unpacked_params_list():
             # Create an empty Result object.
-            result_object = Result(name, type_code)
+            if type_code == Result.CHOICETYPE:
+                # A CHOICETYPE Result needs the number of choices
+                result_object = Result(name,
+                                       type_code,
+                                       choice_num=len(result_list1[0]._value))
+            else:
+                result_object = Result(name, type_code)
 
             # Dictionary with the current unpack variation
             fixed_parameters = unpack.parameters
